@@ -24,7 +24,7 @@ pub fn info() -> PropInfo {
         id: "C01",
         run,
         replay,
-        rule: "cases = (input bytes, reader configuration). Enumerated: every string up to length N over the 13 markup bytes, every sequence of up to K tokens over a 27-token alphabet (incl. BOM); generated: proptest fragment soup, seeded mutations of the repository corpus; the corpus itself under all 128 configurations. A case is non-trivial when the input contains '<' and the reference token stream has at least one non-text token; distinct = distinct (input, configuration) pairs (enumerations are distinct by construction, generated cases are de-duplicated by hash).",
+        rule: "cases = (input bytes, reader configuration). Enumerated: every string up to length N over the 13 markup bytes, every sequence of up to K tokens over a 27-token alphabet (incl. BOM); generated: proptest fragment soup, seeded mutations of the repository corpus; the corpus itself under all 128 configurations. A case is non-trivial when the input contains '<' and the reference token stream has at least one non-text token; distinct = distinct (input, configuration) pairs (enumerations are distinct by construction, generated cases are de-duplicated by hash). Two further enumerations vary SIZE and OFFSET: fourteen construct kinds (text, long name, quoted value with '>', many attributes, blanks inside tags, comment / CDATA / PI bodies with near-terminators, DOCTYPE with nested brackets, blank runs around text, reference runs, declaration, deep nesting) with an inner length 0..=70 placed after a prefix of 0..=130 bytes, and large inputs whose variable part is 255..70 001 bytes long (block-wise scanners, buffer growth, positions beyond 255 / 65 535, default BufReader capacity).",
         assumptions: &[
             "refxml/cfgmodel are an independent reading of the documented lexical grammar; DOCTYPE bodies containing quotes or `--` are checked for totality only (excluded: ambiguous DOCTYPE)",
             "inputs starting with a UTF-16 BOM/signature are outside the domain (documented unsupported)",
